@@ -263,18 +263,24 @@ class SourceEval:
         for i, nd in enumerate(nodes):
             v = self._node(i, nd)
             if i in self.perturb and v is not None:
-                v = ([rho.h('perturbed', i, k) for k in range(len(v))]
-                     if isinstance(v, list) else rho.h('perturbed', i))
+                only = self.perturb[i] if isinstance(self.perturb, dict) else None
+                if isinstance(v, list):
+                    v = [rho.h('perturbed', i, k)
+                         if only is None or k == only else x
+                         for k, x in enumerate(v)]
+                else:
+                    v = rho.h('perturbed', i)
             self.vals.append(v)
 
     def effect_sigs(self):
         return sorted(u['sig'] for u in self.units if u['eff'] == 'effect')
 
-    def semantically_live(self, node):
-        """does any side-effecting unit read a value that depends on `node`?
-        (x*0, MulAdd(x,0,c) ... absorb their operand: a unit only such
-        expressions mention is referenced by nothing once they are reduced)"""
-        other = SourceEval(self.p, self.rho, perturb=(node,))
+    def semantically_live(self, node, chan=None):
+        """does any side-effecting unit read a value that depends on `node`
+        (on its channel `chan`)?  (x*0, MulAdd(x,0,c) ... absorb their operand:
+        a unit only such expressions mention is referenced by nothing once
+        they are reduced; unused channels of an expanded operator likewise)"""
+        other = SourceEval(self.p, self.rho, perturb={node: chan})
         return other.effect_sigs() != self.effect_sigs()
 
     def operand(self, o):
@@ -287,6 +293,39 @@ class SourceEval:
         if not isinstance(v, int):
             raise ValueError('list valued operand (c02) has no value semantics')
         return v
+
+    def _arith(self, i, nd, v, chan=None):
+        """one (channel of an) operator application on scalar values v"""
+        r = self.rho
+        k = nd['k']
+        if k == 'un':
+            if nd['op'] == 'neg':
+                return r.neg(v[0])
+            sp = oc.UNARY_OPCODE[nd['op']]
+            val = r.op('UnaryOpUGen', sp, (v[0],))
+            self.ops.append({'node': i, 'cls': 'UnaryOpUGen', 'special': sp,
+                             'ins': [v[0]], 'val': val, 'name': nd['op'],
+                             'chan': chan})
+            return val
+        if k == 'bin':
+            a, b = v
+            op = nd['op']
+            if op == '+': return r.add(a, b)
+            if op == '-': return r.sub(a, b)
+            if op == '*': return r.mul(a, b)
+            if op == '/': return r.div(a, b)
+            sp = oc.BINARY_OPCODE[op]
+            val = r.op('BinaryOpUGen', sp, (a, b))
+            self.ops.append({'node': i, 'cls': 'BinaryOpUGen', 'special': sp,
+                             'ins': [a, b], 'val': val, 'name': op,
+                             'chan': chan})
+            return val
+        if k == 'madd':
+            return r.add(r.mul(v[0], v[1]), v[2])
+        acc = 0                      # sumn
+        for x in v:
+            acc = r.add(acc, x)
+        return acc
 
     def _unit(self, i, cls, rate, special, nout, ins, tag=None):
         sig = self.rho.unit_sig(cls, rate, special, nout, ins)
@@ -307,34 +346,28 @@ class SourceEval:
             if isinstance(d, list):
                 return [r.ctl(prm['name'], ch, pr) for ch in range(len(d))]
             return r.ctl(prm['name'], 0, pr)
-        if k == 'un':
-            a = self.scalar(nd['a'])
-            if nd['op'] == 'neg':
-                return r.neg(a)
-            sp = oc.UNARY_OPCODE[nd['op']]
-            v = r.op('UnaryOpUGen', sp, (a,))
-            self.ops.append({'node': i, 'cls': 'UnaryOpUGen', 'special': sp,
-                             'ins': [a], 'val': v, 'name': nd['op']})
-            return v
-        if k == 'bin':
-            a = self.scalar(nd['a'])
-            b = self.scalar(nd['b'])
-            op = nd['op']
-            if op == '+': return r.add(a, b)
-            if op == '-': return r.sub(a, b)
-            if op == '*': return r.mul(a, b)
-            if op == '/': return r.div(a, b)
-            sp = oc.BINARY_OPCODE[op]
-            v = r.op('BinaryOpUGen', sp, (a, b))
-            self.ops.append({'node': i, 'cls': 'BinaryOpUGen', 'special': sp,
-                             'ins': [a, b], 'val': v, 'name': op})
-            return v
-        if k == 'madd':
-            return r.add(r.mul(self.scalar(nd['a']), self.scalar(nd['mul'])),
-                         self.scalar(nd['add']))
-        if k in ('sumn', 'lsum', 'mix'):
+        if k in ('un', 'bin', 'madd', 'sumn'):
+            # multichannel expansion (wrap and zip) when an operand is a flat
+            # list of scalar values: one application per channel
+            vals = [self.operand(o) for o in operands_of(nd)]
+            lens = []
+            for v in vals:
+                if isinstance(v, list):
+                    if not v or not all(isinstance(x, int) for x in v):
+                        raise ValueError('nested list (c02): no value semantics')
+                    lens.append(len(v))
+                elif not isinstance(v, int):
+                    raise ValueError('operand without value semantics')
+            if not lens:
+                return self._arith(i, nd, vals)
+            return [self._arith(i, nd, [v[j % len(v)] if isinstance(v, list)
+                                        else v for v in vals], j)
+                    for j in range(max(lens))]
+        if k == 'list':
+            return [self.scalar(o) for o in nd['items']]
+        if k in ('lsum', 'mix'):
             acc = 0
-            for o in nd['args' if k == 'sumn' else 'items']:
+            for o in nd['items']:
                 acc = r.add(acc, self.scalar(o))
             return acc
         if k == 'idx':
@@ -574,11 +607,13 @@ _OPAQUE_BIN = [n for n in oc.BINARY_FORMS if n not in oc.RING_BINARY]
 
 
 class _Info:
-    __slots__ = ('kind', 'hi', 'lo', 'semc', 'depth', 'nout', 'elems', 'nest')
+    __slots__ = ('kind', 'hi', 'lo', 'semc', 'depth', 'nout', 'elems', 'nest',
+                 'einfo')
 
     def __init__(self, kind, hi=0, lo=0, semc=False, depth=0, nout=1,
-                 elems=None, nest=False):
+                 elems=None, nest=False, einfo=None):
         self.nest = nest      # list of lists
+        self.einfo = einfo    # flat list of scalars (c01): _Info per channel
         self.kind = kind      # 'val' | 'multi' | 'none' | 'list' | 'chain' | 'buf'
         self.hi = hi          # rate by the max rule
         self.lo = lo          # rate when semantically constant parts collapse
@@ -647,6 +682,22 @@ class Gen:
         k = nd['k']
         ops = [self.oinfo(o) for o in operands_of(nd) if o[0] in 'nc']
         depth = 1 + max([x.depth for x in ops], default=0)
+        if k in ('un', 'bin', 'madd', 'sumn') and isinstance(vals[0], list) \
+                and all(x.kind == 'val' or x.einfo is not None for x in ops):
+            # expansion over flat lists of scalars (c01): every channel has
+            # its own rate / constancy
+            einfo = []
+            for j in range(len(vals[0])):
+                es = [x if x.kind == 'val' else x.einfo[j % len(x.einfo)]
+                      for x in ops]
+                hi = max(e.hi for e in es)
+                semc = vals[0][j] == vals[3][j]
+                lo = 2 if vals[0][j] != vals[1][j] else \
+                    1 if vals[0][j] != vals[2][j] else 0
+                einfo.append(_Info('val', hi, min(lo, hi), semc, depth))
+            return _Info('list', max(e.hi for e in einfo),
+                         max(e.lo for e in einfo), False, depth,
+                         elems=len(einfo), einfo=einfo)
         if k in ('un', 'bin', 'madd', 'ugen') and any(
                 x.kind in ('list', 'multi') for x in ops) \
                 and not UGENS.get(nd.get('cls'), {}).get('wf'):
@@ -673,6 +724,9 @@ class Gen:
             return _Info('val', hi, min(lo, hi), semc, depth)
         if k == 'idx':
             a = self.info[nd['a'][1]]
+            if a.einfo is not None:
+                e = a.einfo[nd['i']]
+                return _Info('val', e.hi, e.lo, e.semc, a.depth)
             return _Info('val', a.hi, a.lo, False, a.depth)
         if k == 'ugen':
             ent = UGENS[nd['cls']]
@@ -686,9 +740,11 @@ class Gen:
                 return _Info(kind, r, r, False, depth)
             return _Info('val', r, r, False, depth)
         if k == 'list':
+            flat = all(x.kind == 'val' for x in ops)
             return _Info('list', max(x.hi for x in ops), max(x.lo for x in ops),
                          False, depth, elems=len(ops),
-                         nest=any(x.kind in ('list', 'multi') for x in ops))
+                         nest=any(x.kind in ('list', 'multi') for x in ops),
+                         einfo=list(ops) if flat else None)
         return _Info('none', 0, 0, False, depth, 0)
 
     # -- operand selection ---------------------------------------------------
@@ -996,6 +1052,88 @@ class Gen:
         self.features.add('list-sum')
         return self.add({'k': kind, 'items': items})
 
+    # -- multichannel arithmetic over channels of different rates -------------
+    def node_of_rate(self, r):
+        c = [i for i in self.cands(maxrate=r, maxdepth=self.max_depth - 2)
+             if self.info[i].hi == r]
+        if c and self.rng.random() < 0.8:
+            return ['n', self.rng.choice(c)]
+        if r == 0:
+            return self.mk_src(self.rng.choice(['Rand', 'SampleRate']))
+        return self.mk_src(self.rng.choice(['SinOsc', 'LFSaw', 'LFNoise0']),
+                           'ar' if r == 2 else 'kr')
+
+    def arg_list(self, n=None):
+        """argument list: constants and signals of any rate"""
+        rng = self.rng
+        items = []
+        for _ in range(n or rng.randint(2, 3)):
+            o = None if rng.random() < 0.45 else \
+                self.pick_node(nsc=False, maxdepth=self.max_depth - 2)
+            items.append(o or self.const())
+        return self.add({'k': 'list', 'items': items})
+
+    def p_mixed_mc(self):
+        """madd / Sum3 / Sum4 / operators on channel lists whose channels run
+        at different rates; every resulting channel goes to a sink of its own
+        rate.  Receiver channels are unit generators, so every expanded
+        application has a unit-generator operand."""
+        rng = self.rng
+        rates = [2, 1] + [rng.choice([0, 1, 2]) for _ in range(rng.randint(0, 2))]
+        rng.shuffle(rates)
+        items = [self.node_of_rate(r) for r in rates]
+        if any(o is None for o in items):
+            return None
+        recv = self.add({'k': 'list', 'items': items})
+
+        def arg():
+            x = rng.random()
+            if x < 0.35:
+                return self.arg_list()
+            return self.pick(pconst=0.5, maxdepth=self.max_depth - 2)
+        which = rng.choice(['madd', 'madd', 'madd-scalar-receiver', 'sum3',
+                            'sum4', 'bin', 'bin', 'bin-number-left', 'un'])
+        self.features.add('mixed-rate-channels')
+        if which == 'madd':
+            nd = {'k': 'madd', 'a': recv, 'mul': arg(), 'add': arg()}
+        elif which == 'madd-scalar-receiver':
+            x = self.pick_node(maxdepth=self.max_depth - 2)
+            if x is None:
+                return None
+            nd = {'k': 'madd', 'a': x, 'mul': self.arg_list(),
+                  'add': arg()}
+        elif which in ('sum3', 'sum4'):
+            args = [recv] + [arg() for _ in range(2 if which == 'sum3' else 3)]
+            rng.shuffle(args)
+            nd = {'k': 'sumn', 'args': args}
+        elif which == 'bin':
+            op = rng.choice(['+', '-', '*', '/', rng.choice(_OPAQUE_BIN)])
+            nd = {'k': 'bin', 'op': op, 'a': recv, 'b': arg(),
+                  'form': rng.randrange(len(oc.BINARY_FORMS[op]))}
+        elif which == 'bin-number-left':
+            op = rng.choice(['+', '-', '*', '/'])
+            nd = {'k': 'bin', 'op': op, 'a': self.const(), 'b': recv, 'form': 0}
+        else:
+            op = rng.choice(['neg', rng.choice(_OPAQUE_UN)])
+            nd = {'k': 'un', 'op': op, 'a': recv,
+                  'form': rng.randrange(len(oc.UNARY_FORMS[op]))}
+        res = self.add(nd)
+        inf = self.info[res[1]]
+        if inf.einfo is None:
+            return None
+        for j, e in enumerate(inf.einfo):
+            ch = self.add({'k': 'idx', 'a': res, 'i': j})
+            if e.semc:
+                continue
+            bus = ['c', rng.randrange(0, 8)]
+            if e.hi == e.lo == 2:
+                self.add({'k': 'sink', 'cls': 'Out', 'm': 'ar', 'bus': bus,
+                          'chans': [ch], 'bare': True})
+            elif e.hi <= 1 and rng.random() < 0.9:
+                self.add({'k': 'sink', 'cls': 'Out', 'm': 'kr', 'bus': bus,
+                          'chans': [ch], 'bare': True})
+        return res
+
     # -- sinks -----------------------------------------------------------------
     def audio_node(self):
         o = self.pick_node(stable=2, maxdepth=self.max_depth)
@@ -1073,7 +1211,7 @@ C01_PRODUCTIONS = [
     ('p_source', 5), ('p_conv', 1), ('p_bin_ring', 6), ('p_shortcut', 3),
     ('p_add_chain', 4), ('p_muladd', 3), ('p_negs', 3), ('p_self', 3),
     ('p_opaque_un', 2), ('p_neg', 1), ('p_opaque_bin', 2), ('p_madd', 2),
-    ('p_sumn', 1.5), ('p_lsum', 2), ('p_sink', 1),
+    ('p_sumn', 1.5), ('p_lsum', 2), ('p_sink', 1), ('p_mixed_mc', 2.5),
 ]
 
 
@@ -1119,6 +1257,7 @@ class Gen2(Gen):
     def pick_list(self, rate=None):
         c = [i for i, inf in enumerate(self.info)
              if inf.kind in ('list', 'multi') and not inf.nest
+             and self.uniform(inf)
              and (rate is None or inf.hi == rate) and inf.depth < self.max_depth]
         return ['n', self.rng.choice(c)] if c else None
 
@@ -1129,6 +1268,12 @@ class Gen2(Gen):
             return ['c', self.rng.choice([2, 3, 0.5, 0.25, 4, 1.5, -2, 100])]
         o = self.pick_node(maxrate=r)
         return o if o is not None else ['c', 2]
+
+    @staticmethod
+    def uniform(inf):
+        """every channel is a unit generator of the list's (stable) rate"""
+        return inf.einfo is None or all(
+            e.hi == e.lo == inf.hi and not e.semc for e in inf.einfo)
 
     def p_list(self):
         rng = self.rng
@@ -1187,7 +1332,8 @@ class Gen2(Gen):
     def p_sink_list(self):
         rng = self.rng
         c = [i for i, inf in enumerate(self.info)
-             if inf.kind in ('list', 'multi') and inf.depth <= self.max_depth]
+             if inf.kind in ('list', 'multi') and inf.depth <= self.max_depth
+             and self.uniform(inf)]
         if not c:
             return None
         i = rng.choice(c)
